@@ -106,7 +106,13 @@ func NewBalanceRR(name string) *BalanceRR {
 
 // Init initializes RRList with config.
 func (brr *BalanceRR) Init(conf cluster_table_conf.SubClusterBackend) {
+	// an address listed more than once is one backend (its last entry), as
+	// in Update: a fresh start and a reload of the same file must agree
+	confMap := confMapMake(conf)
 	for _, backendConf := range conf {
+		if confMap[backendConf.AddrInfo()] != backendConf {
+			continue
+		}
 		backendRR := NewBackendRR()
 		backendRR.Init(brr.Name, backendConf)
 		// add to backends
